@@ -137,7 +137,7 @@ func runCborEnc(payload string) string {
 	if class == "fin" {
 		// round trip through the real decoder, with trailing bytes that must be left alone
 		// (delivered whole, a byte at a time, in halves, or with the error arriving together with the last bytes)
-		via := []string{"", " one", " half", " dataerr"}[len(w.buf)%4]
+		via := []string{" whole", " one", " half", " dataerr"}[len(w.buf)%4]
 		res += " | rt: " + runCborDec("0 "+hex.EncodeToString(w.buf)+"0102"+via)
 	}
 	return res
